@@ -36,7 +36,7 @@ Definition raw_service (db : list bytes) (fail : bool) (asked : list prefix) : o
 Definition subset (a b : list bytes) : bool := forallb (fun x => mem_hash x b) a.
 Definition same_set (a b : list bytes) : bool := subset a b && subset b a.
 
-Definition life_class (now : Z) (it : citem) : Z := (c_expiry it - now / ns_sec + 50) / 100.
+Definition life_class (now : Z) (it : citem) : Z := (c_expiry it - now / ns_sec + 25) / 100.
 
 Definition cache_agrees (now : Z) (c : cache) (obs : list (bytes * Z * list bytes)) : bool :=
   (length c =? length obs)%nat &&
